@@ -495,6 +495,7 @@ type tailCall struct {
 
 func (e *Exec) crash(g *G) {
 	ps := g.panic
+	e.findKey = "crash@" + ps.where
 	e.event("crash", fmt.Sprintf("unrecovered panic in goroutine %d (%s): %s at %s", g.id, g.name, ps.msg, ps.where))
 	// A crash terminates the process: end the path.
 	panic(pathEnd{"crash"})
